@@ -29,6 +29,7 @@ type Exec struct {
 	fn        *ssa.Function
 	contract  *Contract
 	counter   int
+	lastCalleeSnaps map[string]map[string]Term // snapshots named by the contract applied last (for lemmas)
 	cellCtr   int
 	decls     map[string]string
 	seenTC    map[string]map[*State]bool
